@@ -27,6 +27,12 @@ package restorer
 //   F3 valid tree x{f, sub{g}, l -> f, h1 = h2 (hard links)}, top  with one
 //      pre-existing entry at every path position x {file, non-empty dir,
 //      symlink -> outside dir, symlink -> outside file, dangling symlink}
+//   F5 nodes whose "type" and "mode" fields disagree (symlink with plain /
+//      setuid / directory mode bits pointing outside; file with symlink /
+//      directory / fifo / setuid mode bits) and a file whose content blob does
+//      not exist or whose pack is missing (the download fails while the file
+//      is restored), over an empty target and over a pre-existing symlink to an
+//      outside file / directory at the node's path
 //   F4 the valid tree restored partially through the select filter (what
 //      --include <one path> gives: ancestors are traversed, not selected) for
 //      5 paths x a pre-existing {non-empty dir, symlink -> outside dir / file /
@@ -60,6 +66,7 @@ import (
 	"testing"
 	"time"
 
+	"github.com/restic/restic/internal/backend"
 	"github.com/restic/restic/internal/data"
 	"github.com/restic/restic/internal/repository"
 	"github.com/restic/restic/internal/restic"
@@ -69,13 +76,20 @@ import (
 
 type verifC18Node struct {
 	Name     string
-	Kind     string // file | dir | sym (Target) | hl (file with Links=2, Inode 4242)
+	Kind     string // file | dir | sym (Target) | hl (file with Links=2, Inode 4242) | sym-m (symlink with forged Mode) | file-m (file with forged Mode) | file-noblob (file whose content blob does not exist)
 	Target   string
 	Children []verifC18Node
+	Mode     os.FileMode // sym-m, file-m: the node's "mode" field, independent of its "type"
 }
 
 func (n verifC18Node) String() string {
 	s := fmt.Sprintf("%q:%s", n.Name, n.Kind)
+	if n.Kind == "sym-m" || n.Kind == "file-m" {
+		s += fmt.Sprintf("(mode=%v)", n.Mode)
+	}
+	if n.Kind == "sym-m" {
+		s += "->" + n.Target
+	}
 	if n.Kind == "sym" {
 		s += "->" + n.Target
 	}
@@ -88,6 +102,9 @@ func (n verifC18Node) String() string {
 	}
 	return s
 }
+
+// verifC18BadBlobs collects the blobs of "file-badpack" nodes of the tree being written.
+var verifC18BadBlobs []restic.ID
 
 var verifC18MTime = time.Date(2019, 5, 6, 7, 8, 9, 101112131, time.UTC)
 
@@ -115,6 +132,27 @@ func verifC18SaveTree(ctx context.Context, t testing.TB, up restic.BlobSaver, no
 				}
 				dn.Content, dn.Size = restic.IDs{id}, uint64(len(content))
 			}
+		case "sym-m":
+			dn.Type, dn.Mode, dn.LinkTarget = data.NodeTypeSymlink, n.Mode, n.Target
+		case "file-m":
+			content := []byte("FORGED:" + n.Name)
+			id, _, _, err := up.SaveBlob(ctx, restic.DataBlob, content, restic.ID{}, false)
+			if err != nil {
+				t.Fatal(err)
+			}
+			dn.Type, dn.Mode, dn.Content, dn.Size = data.NodeTypeFile, n.Mode, restic.IDs{id}, uint64(len(content))
+		case "file-badpack":
+			// the blob is indexed, but its pack file will be deleted from the backend (verifC18BadPacks): the
+			// download fails while the file is being restored
+			content := []byte(fmt.Sprintf("BADPACK:%s:%d", n.Name, *inode))
+			id, _, _, err := up.SaveBlob(ctx, restic.DataBlob, content, restic.ID{}, false)
+			if err != nil {
+				t.Fatal(err)
+			}
+			verifC18BadBlobs = append(verifC18BadBlobs, id)
+			dn.Type, dn.Mode, dn.Content, dn.Size = data.NodeTypeFile, 0o4777, restic.IDs{id}, uint64(len(content))
+		case "file-noblob":
+			dn.Type, dn.Mode, dn.Content, dn.Size = data.NodeTypeFile, 0o4777, restic.IDs{restic.Hash([]byte("no such blob " + n.Name))}, 17
 		case "dir":
 			sub := verifC18SaveTree(ctx, t, up, n.Children, inode)
 			dn.Type, dn.Mode, dn.Subtree = data.NodeTypeDir, os.ModeDir|0o700, &sub
@@ -388,6 +426,30 @@ func verifC18Cases(s verifC18Sandbox, thorough bool) []verifC18Case {
 		pres := []verifC18Pre{filePre(pos), dirPre(pos), symPre(pos, "dir"), symPre(pos, "file"), symPre(pos, "ro"), symPre(pos, "nonexistent"), symPre(pos, "empty")}
 		cases = append(cases, verifC18Case{key: "F3|" + pos, nodes: valid, pres: pres})
 	}
+	// ---- F5: "type" and "mode" of a node disagree (they are independent JSON fields), and a file whose content
+	// blob does not exist (its restore fails, the error handler continues) - each over an empty target and
+	// over a pre-existing symlink to an outside file / directory at the node's path
+	for _, mode := range []os.FileMode{0o777, os.ModeSetuid | 0o755, os.ModeDir | 0o700, os.ModeSymlink | 0o777} {
+		for _, target := range []string{absDir, absFile, "../../outside/ro"} {
+			n := verifC18Node{Name: "x", Kind: "sym-m", Target: target, Mode: mode}
+			cases = append(cases, verifC18Case{key: fmt.Sprintf("F5|sym-m|%v|%s", mode, filepath.Base(target)), nodes: []verifC18Node{n}, pres: noPre})
+			cases = append(cases, verifC18Case{key: fmt.Sprintf("F5|sym-m-in-dir|%v|%s", mode, filepath.Base(target)), nodes: []verifC18Node{{Name: "d", Kind: "dir", Children: []verifC18Node{n}}}, pres: noPre})
+		}
+	}
+	for _, mode := range []os.FileMode{os.ModeSymlink | 0o777, os.ModeDir | 0o755, os.ModeNamedPipe | 0o644, os.ModeSetuid | os.ModeSetgid | 0o777} {
+		n := verifC18Node{Name: "x", Kind: "file-m", Mode: mode}
+		cases = append(cases, verifC18Case{key: fmt.Sprintf("F5|file-m|%v", mode), nodes: []verifC18Node{n}, pres: []verifC18Pre{noPre[0], symPre("x", "dir"), symPre("x", "file"), symPre("x", "ro")}})
+	}
+	cases = append(cases, verifC18Case{key: "F5|file-noblob", nodes: []verifC18Node{{Name: "x", Kind: "file-noblob"}, {Name: "y", Kind: "file"}},
+		pres: []verifC18Pre{noPre[0], symPre("x", "dir"), symPre("x", "file"), symPre("x", "ro"), symPre("x", "empty"), dirPre("x")}})
+	cases = append(cases, verifC18Case{key: "F5|file-noblob-in-dir", nodes: []verifC18Node{{Name: "d", Kind: "dir", Children: []verifC18Node{{Name: "x", Kind: "file-noblob"}}}},
+		pres: []verifC18Pre{noPre[0], symPre("d/x", "dir"), symPre("d/x", "file"), symPre("d", "dir")}})
+
+	cases = append(cases, verifC18Case{key: "F5|file-badpack", nodes: []verifC18Node{{Name: "x", Kind: "file-badpack"}, {Name: "y", Kind: "file"}},
+		pres: []verifC18Pre{noPre[0], symPre("x", "dir"), symPre("x", "file"), symPre("x", "ro"), symPre("x", "empty"), filePre("x"), dirPre("x")}})
+	cases = append(cases, verifC18Case{key: "F5|file-badpack-in-dir", nodes: []verifC18Node{{Name: "d", Kind: "dir", Children: []verifC18Node{{Name: "x", Kind: "file-badpack"}}}},
+		pres: []verifC18Pre{noPre[0], symPre("d/x", "dir"), symPre("d/x", "file"), symPre("d", "dir")}})
+
 	// ---- F4: the valid tree restored partially (include filter selecting one path: its ancestors are
 	// traversed but not selected), pre-existing entries at every position on the way
 	for _, only := range []string{"/x/sub/g", "/x/f", "/x/sub", "/x/l", "/x/h2"} {
@@ -404,11 +466,11 @@ func verifC18Cases(s verifC18Sandbox, thorough bool) []verifC18Case {
 func TestVerif_C18(t *testing.T) {
 	r := vh.Start(t, "C18")
 	defer r.Finish()
-	r.Rule("forged trees: F1 every (bad name x node type x position), F2 every sequence of 2 and 3 nodes named x over 9 node shapes, F3 a valid tree x every (path position x pre-existing entry kind), F4 the same tree restored partially (select filter for one path) x pre-existing entry at every ancestor position; each x option set; one real RestoreTo per element; non-trivial = the tree contains a name the restorer must reject, a duplicate name, or the target contains a pre-existing entry at a restored path")
+	r.Rule("forged trees: F1 every (bad name x node type x position), F2 every sequence of 2 and 3 nodes named x over 9 node shapes, F3 a valid tree x every (path position x pre-existing entry kind), F5 type/mode mismatches and files with missing content blobs, F4 the same tree restored partially (select filter for one path) x pre-existing entry at every ancestor position; each x option set; one real RestoreTo per element; non-trivial = the tree contains a name the restorer must reject, a duplicate name, or the target contains a pre-existing entry at a restored path")
 	r.Assume("restore runs as root", "the restore error handler records and continues, as cmd/restic's does", "pre-existing hard links between target and outside are excluded (shared inode)")
 
 	ctx := context.Background()
-	repo := repository.TestRepository(t)
+	repo, _, be := repository.TestRepositoryWithVersion(t, 0)
 	s := verifC18Sandbox{sb: filepath.Join(r.Scratch, "sb")}
 	s.outside, s.mid = filepath.Join(s.sb, "outside"), filepath.Join(s.sb, "mid")
 	s.target = filepath.Join(s.mid, "target")
@@ -427,6 +489,7 @@ func TestVerif_C18(t *testing.T) {
 	}
 
 	reported := map[string]int{}
+	caseNo := 0
 	for _, c := range verifC18Cases(s, r.Thorough()) {
 		if !r.Case(c.key) {
 			continue
@@ -435,12 +498,21 @@ func TestVerif_C18(t *testing.T) {
 			return
 		}
 		var treeID restic.ID
-		inode := uint64(1000)
+		inode := uint64(1000) + uint64(caseNo)*1000
+		caseNo++
+		verifC18BadBlobs = nil
 		if err := repo.WithBlobUploader(ctx, func(ctx context.Context, up restic.BlobSaverWithAsync) error {
 			treeID = verifC18SaveTree(ctx, t, up, c.nodes, &inode)
 			return nil
 		}); err != nil {
 			t.Fatal(err)
+		}
+		for _, id := range verifC18BadBlobs {
+			for _, pb := range repo.LookupBlob(restic.BlobHandle{Type: restic.DataBlob, ID: id}) {
+				if err := be.Remove(ctx, backend.Handle{Type: backend.PackFile, Name: pb.PackID().String()}); err != nil {
+					t.Fatalf("fixture: cannot remove pack of a file-badpack blob: %v", err)
+				}
+			}
 		}
 		sn, err := data.NewSnapshot([]string{"forged"}, nil, "", verifC18MTime)
 		if err != nil {
